@@ -667,3 +667,126 @@ func RuleRO1(c *Ctx) {
 		sc.Undecided("serialisers", "-", "no Marshal*/String method found")
 	}
 }
+
+// ---------------------------------------------------------------- LK1
+
+// RuleLK1: a lock taken is released on every way out. In a function that calls Lock/RLock
+// on a sync mutex and does not defer the matching unlock right away, every `return` (and the
+// end of the body) is reached only with the lock released: after the last acquisition on
+// the path there is an Unlock/RUnlock. An early `return err` inside a loop that skips the
+// unlock after the loop leaves the read lock held; readers go on, the first writer blocks
+// for ever and every later reader behind it.
+func RuleLK1(c *Ctx) {
+	sc := c.Run.Begin("LK1", "in every function that takes a mutex without deferring its release, each return and the end of the body are reached only after the matching unlock", 5)
+	defer sc.End()
+	n, nDeferred := 0, 0
+	c.P.Funcs(func(pk *pkgT, fd *ast.FuncDecl) {
+		info := pk.TypesInfo
+		isMutexCall := func(nd ast.Node, names ...string) (bool, string) {
+			es, ok := nd.(*ast.ExprStmt)
+			if !ok {
+				return false, ""
+			}
+			call, ok := es.X.(*ast.CallExpr)
+			if !ok {
+				return false, ""
+			}
+			g := Callee(info, call)
+			if g == nil || g.Pkg() == nil || g.Pkg().Path() != "sync" {
+				return false, ""
+			}
+			for _, nm := range names {
+				if g.Name() == nm {
+					return true, types.ExprString(Recv(call))
+				}
+			}
+			return false, ""
+		}
+		// acquisitions that are not immediately followed by the deferred release
+		type acq struct {
+			stmt ast.Stmt
+			recv string
+			read bool
+		}
+		var acqs []acq
+		var scan func(list []ast.Stmt)
+		scan = func(list []ast.Stmt) {
+			for i, st := range list {
+				if ok, recv := isMutexCall(st, "Lock", "RLock"); ok {
+					read, _ := isMutexCall(st, "RLock")
+					deferred := false
+					if i+1 < len(list) {
+						if d, isDefer := list[i+1].(*ast.DeferStmt); isDefer {
+							if g := Callee(info, d.Call); g != nil && (g.Name() == "Unlock" || g.Name() == "RUnlock") && types.ExprString(Recv(d.Call)) == recv {
+								deferred = true
+							}
+						}
+					}
+					if !deferred {
+						acqs = append(acqs, acq{st, recv, read})
+					} else {
+						n++
+						nDeferred++
+					}
+				}
+				ast.Inspect(st, func(y ast.Node) bool {
+					if b, ok := y.(*ast.BlockStmt); ok {
+						scan(b.List)
+						return false
+					}
+					if _, isLit := y.(*ast.FuncLit); isLit {
+						return false
+					}
+					return true
+				})
+			}
+		}
+		scan(fd.Body.List)
+		if len(acqs) == 0 {
+			return
+		}
+		cf := c.CFG(pk, fd.Body)
+		for i, a := range acqs {
+			n++
+			key := fmt.Sprintf("%s#%d", c.P.DeclName(fd), i+1)
+			unl := "Unlock"
+			if a.read {
+				unl = "RUnlock"
+			}
+			released := func(nd ast.Node) bool {
+				ok, recv := isMutexCall(nd, unl)
+				return ok && recv == a.recv
+			}
+			taken := func(nd ast.Node) bool { return nd == ast.Node(a.stmt) }
+			bad := ""
+			inspectNoLit(fd.Body, func(nd ast.Node) bool {
+				if ret, ok := nd.(*ast.ReturnStmt); ok {
+					if !cf.MustAtInit(ret, true, nil, released, taken) {
+						bad = "the return at " + c.P.Pos(ret.Pos())
+					}
+				}
+				return true
+			})
+			if last := fd.Body.List[len(fd.Body.List)-1]; bad == "" {
+				if _, isRet := last.(*ast.ReturnStmt); !isRet && !released(last) {
+					if taken(last) || !cf.MustAtInit(last, true, nil, released, taken) {
+						bad = "the end of the function"
+					}
+				}
+			}
+			if bad == "" {
+				sc.Holds(key, c.P.Pos(a.stmt.Pos()), "released on every way out")
+			} else {
+				sc.Violation(key, c.P.Pos(a.stmt.Pos()), fmt.Sprintf("%s is taken here and %s is reached without %s: the lock stays held - later readers still pass, the first writer blocks for ever and then everybody behind it", a.recv, bad, unl))
+			}
+		}
+	})
+	if nDeferred > 0 {
+		for i := 0; i < nDeferred; i++ {
+			sc.Holds(fmt.Sprintf("deferred#%d", i+1), "-", "the release is deferred right after the acquisition")
+		}
+	}
+	if n == 0 {
+		sc.Undecided("sites", "-", "no mutex acquisition found")
+	}
+}
